@@ -222,6 +222,34 @@ def load_errors_propagate_rule(ctx, rid):
                         if "None" in txt and "len(" in txt:
                             good = True
         if good:
+            # ... and the check holds exactly for None and for empty results (evaluated on representatives)
+            from ..util import IntEval
+            for t in tests:
+                txt = norm(t.ast)
+                if "None" in txt and "len(" in txt:
+                    rname_ = sorted(rname)[0] if rname else "res"
+                    got = []
+                    for rep in (None, (), (1,), (1, 2)):
+                        def on_call(c_, ev_, st_, rep=rep):
+                            if norm(c_.func) == "len" and len(c_.args) == 1:
+                                if rep is None:
+                                    raise TypeError("len(None)")
+                                return len(ev_.ev(c_.args[0], st_))
+                            return NotImplemented
+                        try:
+                            got.append(bool(IntEval({rname_: rep}, on_call).ev(t.ast, {})))
+                        except TypeError:
+                            got.append("TypeError")
+                        except AnalysisError:
+                            got = None
+                            break
+                    if got is not None and got != [True, True, False, False]:
+                        rr.bad(ctx.finding(rid, ld, t.ast, "the refusal test `%s` answers %s for a result that is None / empty / of one / of two entries (expected refuse, refuse, accept, accept): an empty result file is accepted, or a good one refused" % (txt, got),
+                                           construct="empty-check-form"), "_load empty check")
+                        good = None
+        if good is None:
+            pass
+        elif good:
             rr.ok("_load: returning `%s` is dominated by a None/empty check whose failing branch raises" % norm(rn.ast.value))
         else:
             rr.bad(ctx.finding(rid, ld, rn.ast, "the loaded result is returned without the None / empty check that refuses a result file containing no data",
